@@ -23,6 +23,7 @@ func TestMain(m *testing.M) {
 		{Test: "TestSeamLife", Quick: 13, Thorough: 22},
 		{Test: "TestSeamJumps", Quick: 12, Thorough: 16},
 		{Test: "TestSeamHistories", Quick: 6, Thorough: 12},
+		{Test: "TestTallShapes", Quick: 2, Thorough: 4},
 	})
 }
 
